@@ -607,7 +607,7 @@ pub(crate) fn compile(typechecker: &TypeChecker, statements: &Vec<Statement>) ->
     let start = Var(typechecker
         .variables
         .iter()
-        .find(|x| &x.name == "start" && x.is_global)
+        .find(|x| x.is_entry_point)
         .unwrap()
         .id);
 
